@@ -229,6 +229,33 @@ theorem byname_mock_exact_partial (syms : List Str) (entries : List Entry) (e e'
     have := step_frame syms entries BState.init 0 st e' inv_init hr hne
     simpa [run, BState.init, behavOf] using this
 
+/-- the exported-method path across packages (ordinary types; answers "no method of another type" for the reflect
+    path where `single_mock_exact` fixes the package): any declared method whose (symbol prefix of the package, type,
+    pointer?, method) differs from the mocked one keeps its original behaviour.  *Partial*: `symPrefix` (the linker's
+    escaping) is not proved injective, so the hypothesis speaks about the escaped package paths. -/
+theorem single_mock_exact_any_pkg_partial (syms : List Str) (entries : List Entry) (e e' : Entry)
+    (he : e ∈ entries) (hx : isExported e.m = true) (hmem : e.callSym ∈ syms)
+    (hu : ∀ a ∈ entries, ∀ b ∈ entries, a.pkg = b.pkg → a.name = b.name → a.m = b.m → a = b)
+    (hg : e.shape = []) (hg' : e'.shape = [])
+    (hT : '.' ∉ e.name) (hT' : '.' ∉ e'.name) (hm : '.' ∉ e.m) (hm' : '.' ∉ e'.m)
+    (hp : e.name.head? ≠ some '(') (hp' : e'.name.head? ≠ some '(')
+    (hdiff : (symPrefix e'.pkg, e'.name, e'.ptr, e'.m) ≠ (symPrefix e.pkg, e.name, e.ptr, e.m)) :
+    let s := (run syms entries BState.init 0 [.structMethod ⟨e.pkg, e.name, e.ptr⟩ e.m]).1
+    behavOf syms s.patched e = some 0 ∧ behavOf syms s.patched e' = none := by
+  have hcs : e.callSym = linkName (symPrefix e.pkg) e.name e.ptr e.m := by simp [Entry.callSym, hg]
+  have hcs' : e'.callSym = linkName (symPrefix e'.pkg) e'.name e'.ptr e'.m := by simp [Entry.callSym, hg']
+  have hn : stepName entries (.structMethod ⟨e.pkg, e.name, e.ptr⟩ e.m) = some e.callSym := by
+    simp [stepName, resolveSM_named entries e he hx hu]
+  refine ⟨?_, ?_⟩
+  · simpa [run] using step_hit syms entries BState.init 0 _ e inv_init hn hmem
+  · have hne : stepName entries (.structMethod ⟨e.pkg, e.name, e.ptr⟩ e.m) ≠ some e'.callSym := by
+      rw [hn, hcs, hcs']
+      intro hc
+      have := name_injective hT hT' hm hm' hp hp' (Option.some.inj hc)
+      exact hdiff (by rw [this.1, this.2.1, this.2.2.1, this.2.2.2])
+    have := step_frame syms entries BState.init 0 _ e' inv_init rfl hne
+    simpa [run, BState.init, behavOf] using this
+
 /-! ## 5. receiver -/
 
 /-- **the receiver is argument 0, for every instance**: whenever `e` is mocked by callback `k`, a call on *any*
@@ -428,6 +455,13 @@ example : behavOf exSyms (MethodG.grun exSyms exEntries MethodG.GState.init 0
         ([.gnew 1 ⟨pa, "T2".toList, false⟩ "Get".toList, .gapply 1] ++ [MethodG.GStep.gapply 0])))).1.patched eGet = some 0 :=
   guard_installs_creation_callback exSyms exEntries [] _ 0 _ _ eGet
     (resolveSM_named exEntries eGet (by decide) (by decide) (by decide)) (by decide) (by decide)
+/-- hypotheses of `single_mock_exact_any_pkg_partial`: `x/pa.T.Get` mocked, `y.v2.T.Get` (another package, escaped prefix) untouched -/
+example :
+    let eOther : Entry := ⟨"m/y.v2".toList, "T".toList, false, "Get".toList, [], 0⟩
+    behavOf (exSyms ++ [eOther.callSym]) (run (exSyms ++ [eOther.callSym]) (exEntries ++ [eOther]) BState.init 0
+      [.structMethod ⟨pa, "T".toList, false⟩ "Get".toList]).1.patched eOther = none :=
+  (single_mock_exact_any_pkg_partial _ _ eGet _ (by decide) (by decide) (by decide) (by decide) rfl rfl (by decide) (by decide)
+    (by decide) (by decide) (by decide) (by decide) (by decide)).2
 end Examples
 
 end C06
